@@ -55,9 +55,45 @@ Definition column (c : string) (r : value) : value :=
   | _ => VNull
   end.
 
-(* the key of a row: its grouping columns with their values, in GROUP BY order *)
-Definition key_of (cols : list string) (r : value) : list (string * value) :=
-  map (fun c => (c, column c r)) cols.
+(* the value of a grouping column in a row, when it has one.  The column is a path of key steps and index steps
+   (Model/Ast.v [kstep]).  Written from the text of the property, not from selector.go:
+     * nothing below NULL: every further step reads NULL;
+     * a key step reads the entry of an object, NULL when the object has no such entry;
+     * an index step reads element i of an array that has one (0 <= i < length);
+     * anything else — a key step on a scalar or an array, an index step on an object or a scalar, an index
+       beyond the end of the array, a negative index — has NO value ([None]): such a row is outside the scope of
+       the partition claims ([row_ok]); [path_stuck] below lists the cases in which the engine refuses the query
+       (C03_unreadable_key_is_refused). *)
+Fixpoint path_value (p : list kstep) (v : value) : option value :=
+  match p with
+  | [] => Some v
+  | s :: rest =>
+      match v with
+      | VNull => Some VNull
+      | _ =>
+          match s, v with
+          | KKey k, VObj kvs =>
+              path_value rest (match lookup k kvs with Some x => x | None => VNull end)
+          | KIdx i, VArr l =>
+              if ((0 <=? i) && (i <? Z.of_nat (List.length l)))%Z then
+                match nth_error l (Z.to_nat i) with
+                | Some x => path_value rest x
+                | None => None
+                end
+              else None
+          | _, _ => None
+          end
+      end
+  end.
+
+(* the value of grouping column c in a row; a column without a value is outside [row_ok] *)
+Definition key_value (c : gkey) (r : value) : value :=
+  match path_value (gk_path c) r with Some v => v | None => VNull end.
+
+(* the key of a row: its grouping columns (under the names the group row carries them) with their values, in
+   GROUP BY order *)
+Definition key_of (cols : list gkey) (r : value) : list (string * value) :=
+  map (fun c => (gk_name c, key_value c r)) cols.
 
 (* equality of scalar column values: NULL = NULL, booleans, strings bytewise, numbers numerically
    (so 0 = -0); values of different kinds are different *)
@@ -78,11 +114,12 @@ Fixpoint key_eq (k1 k2 : list (string * value)) : bool :=
   | _, _ => false
   end.
 
-Definition group_spec (cols : list string) (rows : list value)
+Definition group_spec (cols : list gkey) (rows : list value)
   : list (list (string * value) * list value) :=
   group_by (key_of cols) key_eq rows.
 
-(* scope of the grouping claims: the value of a grouping column is NULL (or missing), a boolean, a
+(* scope of the grouping claims: every grouping column has a value in every row ([path_value] is [Some]), and
+   that value is NULL (or missing), a boolean, a
    string, or a number that is not NaN ([x =? x] is false exactly for NaN); an array or an object
    as key value is outside: Go panics comparing two of them *)
 Definition key_val_ok (v : value) : bool :=
@@ -92,13 +129,55 @@ Definition key_val_ok (v : value) : bool :=
   | VArr _ | VObj _ => false
   end.
 
-Definition row_ok (cols : list string) (r : value) : bool :=
+(* the column has a value in the row, and that value is a scalar in scope *)
+Definition col_ok (r : value) (c : gkey) : bool :=
+  match path_value (gk_path c) r with
+  | Some v => key_val_ok v
+  | None => false
+  end.
+
+Definition row_ok (cols : list gkey) (r : value) : bool :=
   match r with
-  | VObj _ => forallb (fun c => key_val_ok (column c r)) cols
+  | VObj _ => forallb (col_ok r) cols
   | _ => false
   end.
 
-Definition rows_ok (cols : list string) (rows : list value) : bool := forallb (row_ok cols) rows.
+Definition rows_ok (cols : list gkey) (rows : list value) : bool := forallb (row_ok cols) rows.
+
+(* one name, one column.  BuildGroup keeps the grouping columns in a map keyed by the column text, and the steps
+   are what that text parses to: two entries with the same name are the same column *)
+Definition names_unambiguous (cols : list gkey) : Prop :=
+  forall c c', In c cols -> In c' cols -> gk_name c = gk_name c' -> c = c'.
+
+(* every grouping column has a value in the row (of whatever kind) *)
+Definition readable (cols : list gkey) (r : value) : bool :=
+  forallb (fun c => match path_value (gk_path c) r with Some _ => true | None => false end) cols.
+
+(* the ways a grouping column has no value that make the engine REFUSE the query (selector.go Reader returns an
+   error): the path runs through a scalar (a key step or an index step on a boolean / number / string), an index
+   step meets an object, or an index step [i] meets an array without an element i (i >= length, or i < -1).
+   Not in this list (the engine does read something): a key step on an ARRAY reads the key off every element
+   and yields an array — a container as key value, outside [key_val_ok] like any other array — and the index
+   -1 is the selector `[each]`. *)
+Fixpoint path_stuck (p : list kstep) (v : value) : bool :=
+  match p with
+  | [] => false
+  | s :: rest =>
+      match s, v with
+      | _, VNull => false
+      | _, (VBool _ | VNum _ | VStr _) => true
+      | KKey k, VObj kvs => path_stuck rest (match lookup k kvs with Some x => x | None => VNull end)
+      | KKey _, VArr _ => false
+      | KIdx _, VObj _ => true
+      | KIdx i, VArr l =>
+          if ((0 <=? i) && (i <? Z.of_nat (List.length l)))%Z then
+            match nth_error l (Z.to_nat i) with
+            | Some x => path_stuck rest x
+            | None => false
+            end
+          else negb (i =? -1)%Z
+      end
+  end.
 
 (* the only facts about IEEE equality the grouping theorems use; they hold for all doubles
    (x =? y = true implies neither is NaN).  Proofs.C03FloatEq derives them from the standard
